@@ -77,7 +77,7 @@ Record PreEv (ts0 : list task) (later : nat -> Prop) (w : world) (t m : N) (spaw
   pe_m : m < 2;
   pe_drv : forall m', m' < 2 -> exists l, l <= w_now w /\ Inv l (drv_of w m') /\
            Permutation ((if fire && (m' =? m) then [t] else []) ++ wakes m' (spend (w_fes w))) (scheduled (drv_of w m')) /\
-           Tie (w_tasks w) (w_owner w) (w_nid w) [] m' (drv_of w m') /\ Extra l (drv_of w m');
+           Tie (w_tasks w) l [] m' (drv_of w m') /\ Extra l (drv_of w m');
   pe_spawn_nd : NoDup spawn;
   pe_spawn : forall k, In k spawn -> exists tk, nth_error (w_tasks w) k = Some tk /\ unspawned tk /\ t_mod tk = m /\ t_start tk = t;
   pe_spawn_msg : forall k e, In k spawn -> In e (spend (w_fes w)) -> epay e <> msg_of k;
@@ -121,24 +121,33 @@ Section Event.
     - exact Hperm.
   Qed.
 
-  (* every entry that activation pops belongs to a task of module m whose deadline is exactly t *)
+  (* every entry that activation pops is a Sleep with deadline exactly t, held by a task of
+     module m whose awaited future completes exactly at t *)
   Lemma ev_woken d es id : In (d, es) (fst (activate t dr0)) -> In id es ->
-    exists k tk s, nth_error (w_tasks w) k = Some tk /\ blocked_sleep tk = Some s /\ t_mod tk = m /\
-                   sid s = id /\ deadline s = t /\ waker_of (w_owner w) id = Some k.
+    exists k tk a s, nth_error (w_tasks w) k = Some tk /\ t_cur tk = Some a /\ In s (held tk) /\ t_mod tk = m /\
+                     sid s = id /\ deadline s = d /\ d = t /\ aw_wake a = t /\ waker_of (w_owner w) id = Some k.
   Proof.
-    intros Hin Hid.
-    destruct (pe_drv _ _ _ _ _ _ _ HP m (pe_m _ _ _ _ _ _ _ HP)) as (l & _ & [Hmid Hwake] & _ & [_ Htask] & _).
+    intros Hin Hid. pose proof (pe_base _ _ _ _ _ _ _ HP) as Hbase.
+    destruct (pe_drv _ _ _ _ _ _ _ HP m (pe_m _ _ _ _ _ _ _ HP)) as (l & _ & [Hmid Hwake] & _ & [Hentry Htask _] & _).
     pose proof (never_early t dr0 d es Hin) as Hle.
     assert (Hp : In (d, es) (pending (drv_of w m))).
     { rewrite <- ev_pending0. unfold activate in Hin. destruct (q_bump t (pending dr0)) as [wk rest] eqn:Eb. cbn [fst] in Hin.
       destruct (q_bump_spec _ _ _ _ Eb) as (-> & _). apply in_or_app. left; exact Hin. }
-    assert (Hne : es <> []) by (intros E; rewrite E in Hid; contradiction).
     assert (Hid' : In id (ents_at d (pending (drv_of w m)))) by (rewrite (in_ents_at _ _ _ (mid_sorted _ _ Hmid) Hp); exact Hid).
-    destruct (Htask d id Hid') as (k & tk & s & Hk & Hbl & Hm & _ & E1 & E2).
-    assert (Hfin : d < TMAX) by (rewrite <- E2; exact (base_blocked_fin _ _ _ _ _ _ _ (pe_base _ _ _ _ _ _ _ HP) Hk Hbl)).
-    destruct (Hwake d es Hp Hne Hfin) as (w0 & Hw0 & _ & Hw0d). pose proof (ev_sched_ge w0 Hw0) as Htw.
-    exists k, tk, s. repeat split; try assumption; [lia|].
-    rewrite <- E1. exact (proj2 (b_ids _ _ _ _ (pe_base _ _ _ _ _ _ _ HP) k tk s Hk Hbl)).
+    destruct (Htask d id Hid') as (k & tk & s & Hk & Hs & Hm & E1 & E2).
+    destruct (Forall2_nth _ _ _ _ _ (b_states _ _ _ _ Hbase) Hk) as (tk0 & Hk0 & Hst).
+    assert (Hi0 : init_ok tk0).
+    { pose proof (b_init _ _ _ _ Hbase) as Hall. rewrite Forall_forall in Hall. apply Hall. eapply nth_error_In; exact Hk0. }
+    destruct (held_blocked _ _ _ Hst Hi0 Hs) as (a & Hc & Hkind & Hsa & _ & _ & Hheld).
+    destruct (aw_wake_held a Hkind) as [(smin & Hsmin & Emin) Hge].
+    (* the Sleep that completes the future is registered: the wake-up that covers it is not before t *)
+    assert (Hreg : In (sid smin) (ents_at (aw_wake a) (pending (drv_of w m)))).
+    { rewrite <- Emin. apply (Hentry k tk smin Hk); [rewrite Hheld; exact Hsmin|exact Hm|left; intros []]. }
+    assert (Hne : ents_at (aw_wake a) (pending (drv_of w m)) <> []) by (intros E; rewrite E in Hreg; contradiction).
+    destruct (Hwake _ _ (ents_at_in _ _ Hne) Hne (base_blocked_fin _ _ _ _ _ _ _ Hbase Hk Hc)) as (w0 & Hw0 & _ & Hw0d).
+    pose proof (ev_sched_ge w0 Hw0) as Htw. pose proof (Hge s Hsa) as Hws.
+    exists k, tk, a, s. repeat split; try assumption; try lia.
+    rewrite <- E1. exact (proj2 (b_ids _ _ _ _ Hbase k tk s Hk Hs)).
   Qed.
 
   Let woken := fst (activate t dr0).
@@ -147,58 +156,80 @@ Section Event.
   Let w1 := set_drv w m dr1.
 
   Lemma ev_q0_woken k : In k (flat_map (owner_of (w_owner w)) (flat_map snd woken)) ->
-    exists tk s, nth_error (w_tasks w) k = Some tk /\ blocked_sleep tk = Some s /\ t_mod tk = m /\ deadline s = t.
+    exists tk a, nth_error (w_tasks w) k = Some tk /\ t_cur tk = Some a /\ t_mod tk = m /\ aw_wake a = t.
   Proof.
     intros H. apply in_flat_map in H. destruct H as (id & Hid & Hk). apply in_flat_map in Hid.
     destruct Hid as ([d es] & Hsl & Hes). cbn [snd] in Hes.
-    destruct (ev_woken d es id Hsl Hes) as (k' & tk & s & H1 & H2 & H3 & H4 & H5 & H6).
-    unfold owner_of in Hk. rewrite H6 in Hk. destruct Hk as [<-|[]]. exists tk, s. repeat split; assumption.
+    destruct (ev_woken d es id Hsl Hes) as (k' & tk & a & s & H1 & H2 & _ & H3 & _ & _ & _ & H5 & H6).
+    unfold owner_of in Hk. rewrite H6 in Hk. destruct Hk as [<-|[]]. exists tk, a. repeat split; assumption.
   Qed.
 
   Lemma ev_q0_runnable k : In k q0 -> runnable (w_tasks w) t m k.
   Proof.
     unfold q0. rewrite dedup_in. intros H. apply in_app_or in H. destruct H as [H|H].
-    - destruct (ev_q0_woken k H) as (tk & s & H1 & H2 & H3 & H4). exists tk. split; [exact H1|]. split; [exact H3|].
-      right. exists s. split; assumption.
+    - destruct (ev_q0_woken k H) as (tk & a & H1 & H2 & H3 & H4). exists tk. split; [exact H1|]. split; [exact H3|].
+      right. exists a. split; assumption.
     - destruct (pe_spawn _ _ _ _ _ _ _ HP k H) as (tk & H1 & H2 & H3 & H4). exists tk. split; [exact H1|]. split; [exact H3|].
       left. split; assumption.
   Qed.
 
-  Lemma ev_tie1 : Tie (w_tasks w) (w_owner w) (w_nid w) q0 m dr1.
+  Lemma ev_tie1 : Tie (w_tasks w) t q0 m dr1.
   Proof.
-    destruct (pe_drv _ _ _ _ _ _ _ HP m (pe_m _ _ _ _ _ _ _ HP)) as (l & _ & [Hmid _] & _ & [Hentry Htask] & _).
+    destruct (pe_drv _ _ _ _ _ _ _ HP m (pe_m _ _ _ _ _ _ _ HP)) as (l & _ & [Hmid _] & _ & [Hentry Htask Hnd] & _).
     pose proof (mid_sorted _ _ Hmid) as Hs.
     assert (Hmid1 : Mid t dr1) by (apply activate_mid; exact ev_pre).
+    assert (Hsub : forall d E, In (d, E) (pending dr1) -> In (d, E) (pending (drv_of w m))).
+    { intros d E Hsl. rewrite <- ev_pending0. unfold dr1, activate in Hsl. destruct (q_bump t (pending dr0)) as [wk rest] eqn:Eb. cbn [snd pending] in Hsl.
+      destruct (q_bump_spec _ _ _ _ Eb) as (-> & _). apply in_or_app. right; exact Hsl. }
+    assert (Hsame : forall d, ents_at d (pending dr1) <> [] -> ents_at d (pending dr1) = ents_at d (pending (drv_of w m))).
+    { intros d Hne. symmetry. apply (in_ents_at _ _ _ Hs). apply Hsub. apply ents_at_in. exact Hne. }
     constructor.
-    - intros k tk s Hk Hbl Hm Hq.
-      pose proof (Hentry k tk s Hk Hbl Hm (fun F => F)) as Hold.
+    - intros k tk s Hk Hsh Hm Hq.
+      pose proof (Hentry k tk s Hk Hsh Hm (or_introl (fun F => F))) as Hold.
       assert (Hne : ents_at (deadline s) (pending (drv_of w m)) <> []) by (intros E; rewrite E in Hold; contradiction).
       set (E := ents_at (deadline s) (pending (drv_of w m))) in *.
       assert (Hin : In (deadline s, E) (pending dr0)) by (rewrite ev_pending0; apply ents_at_in; exact Hne).
       destruct (N.le_gt_cases (deadline s) t) as [Hle|Hgt].
-      + exfalso. apply Hq. unfold q0. rewrite dedup_in. apply in_or_app. left.
+      + exfalso. destruct Hq as [Hq|Hq]; [|lia]. apply Hq. unfold q0. rewrite dedup_in. apply in_or_app. left.
         apply in_flat_map. exists (sid s). split.
         * apply in_flat_map. exists (deadline s, E). split; [|exact Hold].
           unfold woken. apply bump_takes_all_due; [rewrite ev_pending0; exact Hs|exact Hin|exact Hle].
-        * unfold owner_of. rewrite (proj2 (b_ids _ _ _ _ (pe_base _ _ _ _ _ _ _ HP) k tk s Hk Hbl)). left; reflexivity.
+        * unfold owner_of. rewrite (proj2 (b_ids _ _ _ _ (pe_base _ _ _ _ _ _ _ HP) k tk s Hk Hsh)). left; reflexivity.
       + pose proof (activate_keeps_future t dr0 _ _ Hin Hgt) as Hk1. fold dr1 in Hk1.
         rewrite (in_ents_at _ _ _ (mid_sorted _ _ Hmid1) Hk1). exact Hold.
     - intros d id Hin.
       assert (Hne : ents_at d (pending dr1) <> []) by (intros E; rewrite E in Hin; contradiction).
-      pose proof (ents_at_in _ _ Hne) as Hsl.
-      assert (Hd : t < d) by (exact (mid_future _ _ Hmid1 d _ Hsl Hne)).
-      set (Ed := ents_at d (pending dr1)) in *.
-      assert (Hp : In (d, Ed) (pending (drv_of w m))).
-      { rewrite <- ev_pending0. clearbody Ed. unfold dr1, activate in Hsl. destruct (q_bump t (pending dr0)) as [wk rest] eqn:Eb. cbn [snd pending] in Hsl.
-        destruct (q_bump_spec _ _ _ _ Eb) as (-> & _). apply in_or_app. right; exact Hsl. }
-      assert (Hid' : In id (ents_at d (pending (drv_of w m)))) by (rewrite (in_ents_at _ _ _ Hs Hp); exact Hin).
-      destruct (Htask d id Hid') as (k & tk & s & Hk & Hbl & Hm & _ & E1 & E2).
-      exists k, tk, s. repeat split; try assumption.
-      intros Hq. unfold q0 in Hq. rewrite dedup_in in Hq. apply in_app_or in Hq. destruct Hq as [Hq|Hq].
-      + destruct (ev_q0_woken k Hq) as (tk' & s' & H1 & H2 & _ & H4). rewrite Hk in H1. injection H1 as <-.
-        rewrite Hbl in H2. injection H2 as <-. lia.
-      + destruct (pe_spawn _ _ _ _ _ _ _ HP k Hq) as (tk' & H1 & [Hc _] & _). rewrite Hk in H1. injection H1 as <-.
-        rewrite (blocked_sleep_cur _ _ Hbl) in Hc. discriminate.
+      rewrite (Hsame d Hne) in Hin. exact (Htask d id Hin).
+    - intros d. destruct (ents_at d (pending dr1)) as [|e0 l0] eqn:Ed; [constructor|].
+      assert (Hne : ents_at d (pending dr1) <> []) by (rewrite Ed; discriminate).
+      rewrite <- Ed, (Hsame d Hne). apply Hnd.
+  Qed.
+
+  (* a woken task's due timer made next_wakeup due as well: activation cleared it *)
+  Lemma ev_nwq k tk a : In k q0 -> nth_error (w_tasks w) k = Some tk -> t_cur tk = Some a -> next_wakeup dr1 = None.
+  Proof.
+    intros Hin Hk Hc. pose proof (pe_base _ _ _ _ _ _ _ HP) as Hbase.
+    destruct (pe_drv _ _ _ _ _ _ _ HP m (pe_m _ _ _ _ _ _ _ HP)) as (l & _ & [Hmid _] & _ & [Hentry _ _] & ([_ _ _ Hcov] & _)).
+    assert (Hwk : aw_wake a = t /\ t_mod tk = m).
+    { unfold q0 in Hin. rewrite dedup_in in Hin. apply in_app_or in Hin. destruct Hin as [Hin|Hin].
+      - destruct (ev_q0_woken k Hin) as (tk' & a' & H1 & H2 & H3 & H4). rewrite Hk in H1. injection H1 as <-.
+        rewrite Hc in H2. injection H2 as <-. split; assumption.
+      - destruct (pe_spawn _ _ _ _ _ _ _ HP k Hin) as (tk' & H1 & [Hcn _] & _). rewrite Hk in H1. injection H1 as <-.
+        rewrite Hc in Hcn. discriminate. }
+    destruct Hwk as [Hwk Hm].
+    destruct (Forall2_nth _ _ _ _ _ (b_states _ _ _ _ Hbase) Hk) as (tk0 & Hk0 & Hst).
+    assert (Hi0 : init_ok tk0).
+    { pose proof (b_init _ _ _ _ Hbase) as Hall. rewrite Forall_forall in Hall. apply Hall. eapply nth_error_In; exact Hk0. }
+    destruct (tstate_blocked _ _ _ Hst Hi0 Hc) as (st & rest & _ & _ & _ & _ & _ & _ & Hkind & _ & _ & Hheld & _).
+    destruct (aw_wake_held a Hkind) as [(smin & Hsmin & Emin) _].
+    assert (Hreg : In (sid smin) (ents_at t (pending (drv_of w m)))).
+    { rewrite <- Hwk, <- Emin. apply (Hentry k tk smin Hk); [rewrite Hheld; exact Hsmin|exact Hm|left; intros []]. }
+    assert (Hne : ents_at t (pending (drv_of w m)) <> []) by (intros E; rewrite E in Hreg; contradiction).
+    assert (Hfin : t < TMAX) by (rewrite <- Hwk; exact (base_blocked_fin _ _ _ _ _ _ _ Hbase Hk Hc)).
+    destruct (Hcov t _ (ents_at_in _ _ Hne) Hne Hfin) as (x & Hx & _ & _ & Hxt).
+    unfold dr1, activate. destruct (q_bump t (pending dr0)) as [wk rest1]. cbn [snd next_wakeup].
+    assert (E : next_wakeup dr0 = next_wakeup (drv_of w m)) by (unfold dr0; destruct fire; reflexivity).
+    rewrite E, Hx. replace (x <=? t) with true by lia. reflexivity.
   Qed.
 
   (* activation keeps the liveness fact of the fragment *)
@@ -230,6 +261,7 @@ Section Event.
     - unfold w1. rewrite drv_of_set_same. apply activate_mid. exact ev_pre.
     - unfold w1. rewrite drv_of_set_same. exact ev_tie1.
     - unfold w1. rewrite drv_of_set_same. exact ev_live1.
+    - intros k tk a Hin Hk Hc. unfold w1. rewrite drv_of_set_same. exact (ev_nwq k tk a Hin Hk Hc).
   Qed.
 End Event.
 
@@ -326,7 +358,7 @@ Proof.
   - rewrite W3e. exact (mi_mail _ _ _ _ _ Hm2).
   - rewrite W3b, W3c, W3d. exact (mi_base _ _ _ _ _ Hm2).
   - intros m' Hm'. rewrite drv_of_world. change (if m' =? 0 then w_d0 w3 else w_d1 w3) with (drv_of w3 m').
-    rewrite W3b, W3c, W3d.
+    rewrite W3b.
     destruct (N.eq_dec m' m) as [->|Hne].
     + rewrite W3f. exists t. split; [lia|]. split; [exact Hinv3|].
       assert (Hex : Extra t dr3).
@@ -338,13 +370,17 @@ Proof.
         destruct wk' as [x|]; cbn [app]; [|rewrite app_nil_r; exact Hs0].
         rewrite wakes_cons. cbn [epay etime]. rewrite N.eqb_refl.
         eapply Permutation_trans; [apply perm_skip; exact Hs0|apply Permutation_cons_append].
-      * destruct (mi_tie _ _ _ _ _ Hm2) as [He Ht]. pose proof (mid_sorted _ _ (mi_mid _ _ _ _ _ Hm2)) as Hsrt.
+      * destruct (mi_tie _ _ _ _ _ Hm2) as [He Ht Hnd]. pose proof (mid_sorted _ _ (mi_mid _ _ _ _ _ Hm2)) as Hsrt.
         constructor.
         -- intros k tk s Hk Hbl Hmm Hq. rewrite Dp. pose proof (He k tk s Hk Hbl Hmm Hq) as Hold.
            rewrite ents_at_prune_keep; [exact Hold|exact Hsrt|]. intros E; rewrite E in Hold; contradiction.
         -- intros d id Hin. rewrite Dp in Hin. exact (Ht d id (ents_at_prune_in _ _ _ Hsrt Hin)).
+        -- intros d. rewrite Dp. destruct (ents_at d (prune (pending (drv_of w2 m)))) as [|e0 l0] eqn:Ed0; [constructor|].
+           rewrite <- Ed0. rewrite ents_at_prune_keep; [apply Hnd|exact Hsrt|].
+           intros E. assert (Hin : In e0 (ents_at d (pending (drv_of w2 m)))) by (apply (ents_at_prune_in _ _ _ Hsrt); rewrite Ed0; left; reflexivity).
+           rewrite E in Hin. contradiction.
     + pose proof (mod_other m m' Hm Hm' Hne) as Hoth. rewrite (W3g m' Hoth).
-      destruct (pe_drv _ _ _ _ _ _ _ HP m' Hm') as (l & Hl & Hinv & Hperm & [He Ht] & Hex).
+      destruct (pe_drv _ _ _ _ _ _ _ HP m' Hm') as (l & Hl & Hinv & Hperm & [He Ht Hnd] & Hex).
       exists l. split; [pose proof (pe_now _ _ _ _ _ _ _ HP); lia|]. split; [exact Hinv|]. split; [|split; [|exact Hex]].
       * eapply Permutation_trans; [apply wakes_perm; exact Hperm'|].
         replace (fire && (m' =? m)) with false in Hperm by (destruct fire; cbn [andb]; [lia|reflexivity]). cbn [app] in Hperm.
@@ -354,10 +390,11 @@ Proof.
         -- intros k tk s Hk Hbl Hmm Hq.
            assert (Hnq : ~ In k q0) by (intros Hin; pose proof (Hq0mod k tk Hin Hk); congruence).
            rewrite (F4 k Hnq), W1c in Hk. exact (He k tk s Hk Hbl Hmm Hq).
-        -- intros d id Hin. destruct (Ht d id Hin) as (k & tk & s & Hk & Hbl & Hmm & Hq & E1 & E2).
+        -- intros d id Hin. destruct (Ht d id Hin) as (k & tk & s & Hk & Hbl & Hmm & E1 & E2).
            assert (Hnq : ~ In k q0).
            { intros Hin'. destruct (Hq0run k Hin') as (tkp & Hkp & Hmp & _). rewrite Hk in Hkp. injection Hkp as <-. congruence. }
            exists k, tk, s. rewrite (F4 k Hnq), W1c. repeat split; assumption.
+        -- exact Hnd.
   - (* the messages *)
     destruct (pe_msgs _ _ _ _ _ _ _ HP) as [Mt Mn Ma Ml]. rewrite W3b.
     assert (Hnewpay : forall e, In e (match wk' with Some x => [{| etime := x; eid := s_next (w_fes w); epay := m |}] | None => [] end) -> epay e < 2).
@@ -367,8 +404,8 @@ Proof.
       pose proof (Hnewpay e H). lia. }
     assert (Hstill : forall k tk, nth_error (w_tasks w) k = Some tk -> unspawned tk -> ~ In k spawn -> ~ In k q0).
     { intros k tk Hk Hun Hns Hin. unfold q0 in Hin. rewrite dedup_in in Hin. apply in_app_or in Hin. destruct Hin as [Hin|Hin]; [|exact (Hns Hin)].
-      destruct (Hq0wk k Hin) as (tk' & s & H1 & H2 & _). rewrite Hk in H1. injection H1 as <-.
-      destruct Hun as [Hc _]. rewrite (blocked_sleep_cur _ _ H2) in Hc. discriminate. }
+      destruct (Hq0wk k Hin) as (tk' & a & H1 & H2 & _). rewrite Hk in H1. injection H1 as <-.
+      destruct Hun as [Hc _]. rewrite H2 in Hc. discriminate. }
     constructor.
     + intros e He Hp. destruct (Mt e (Hin' e He Hp) Hp) as (k & tk & E1 & Hk & Hun & E2 & E3).
       assert (Hns : ~ In k spawn).
@@ -411,7 +448,7 @@ Proof.
   pose proof (ev_minv1 ts0 later w t m spawn fire HP) as Hm1.
   pose proof (ev_woken ts0 later w t m spawn fire HP) as Hwoken.
   pose proof (ev_pre ts0 later w t m spawn fire HP) as Hpre.
-  destruct (pe_drv _ _ _ _ _ _ _ HP m (pe_m _ _ _ _ _ _ _ HP)) as (l & _ & [Hmidl _] & _ & [_ Htask0] & ([_ _ _ Hcov] & Hnl)).
+  destruct (pe_drv _ _ _ _ _ _ _ HP m (pe_m _ _ _ _ _ _ _ HP)) as (l & _ & [Hmidl _] & _ & [Hentry0 Htask0 _] & ([_ _ _ Hcov] & Hnl)).
   unfold module_event.
   set (dr0 := if fire then sched_fire t (drv_of w m) else drv_of w m) in *.
   assert (Hp0 : pending dr0 = pending (drv_of w m)) by (unfold dr0; destruct fire; reflexivity).
@@ -458,7 +495,7 @@ Proof.
     (* nothing was woken, nothing spawned: every popped slot is empty *)
     assert (Hwkempty : forall d es, In (d, es) wk -> es = []).
     { intros d es Hin. destruct es as [|id es]; [reflexivity|exfalso].
-      destruct (Hwoken d (id :: es) id Hin (or_introl eq_refl)) as (k & tkx & sx & _ & _ & _ & _ & _ & Hwk).
+      destruct (Hwoken d (id :: es) id Hin (or_introl eq_refl)) as (k & tkx & ax & sx & _ & _ & _ & _ & _ & _ & _ & _ & Hwk).
       assert (Hk : In k []).
       { rewrite <- Hq0def. rewrite dedup_in. apply in_or_app. left. apply in_flat_map. exists id. split.
         - apply in_flat_map. exists (d, id :: es). split; [exact Hin|left; reflexivity].
@@ -487,8 +524,24 @@ Proof.
       assert (Hfin0 : d0 < TMAX).
       { destruct es0 as [|id0 es0']; [contradiction Hne0; reflexivity|].
         assert (Hid0 : In id0 (ents_at d0 (pending (drv_of w m)))) by (rewrite (in_ents_at _ _ _ (mid_sorted _ _ Hmidl) Hin0); left; reflexivity).
-        destruct (Htask0 d0 id0 Hid0) as (k0 & tk0 & s0 & Hk0 & Hbl0 & _ & _ & _ & E0).
-        rewrite <- E0. exact (base_blocked_fin _ _ _ _ _ _ _ (pe_base _ _ _ _ _ _ _ HP) Hk0 Hbl0). }
+        destruct (Htask0 d0 id0 Hid0) as (k0 & tk0 & s0 & Hk0 & Hs0' & Hm0 & _ & E0).
+        pose proof (pe_base _ _ _ _ _ _ _ HP) as Hbase.
+        destruct (Forall2_nth _ _ _ _ _ (b_states _ _ _ _ Hbase) Hk0) as (tki & Hki & Hsti).
+        assert (Hii : init_ok tki).
+        { pose proof (b_init _ _ _ _ Hbase) as Hall. rewrite Forall_forall in Hall. apply Hall. eapply nth_error_In; exact Hki. }
+        destruct (held_blocked _ _ _ Hsti Hii Hs0') as (a0 & Hc0 & Hkind0 & Hsa0 & _ & _ & Hheld0).
+        destruct (aw_wake_held a0 Hkind0) as [(smin & Hsmin & Emin) Hge].
+        pose proof (base_blocked_fin _ _ _ _ _ _ _ Hbase Hk0 Hc0) as Hfinw.
+        pose proof (Hge s0 Hsa0) as Hwd. rewrite E0 in Hwd.
+        (* the Sleep that completes the awaited future is registered, live, not popped: the front is not after it *)
+        assert (Hreg : In (sid smin) (ents_at (aw_wake a0) (pending (drv_of w m)))).
+        { rewrite <- Emin. apply (Hentry0 k0 tk0 smin Hk0); [rewrite Hheld0; exact Hsmin|exact Hm0|left; intros []]. }
+        assert (Hnew : ents_at (aw_wake a0) (pending (drv_of w m)) <> []) by (intros E; rewrite E in Hreg; contradiction).
+        pose proof (prune_keeps_live _ _ _ (Hlive_rest _ _ (ents_at_in _ _ Hnew) Hnew) Hnew) as Hinp.
+        rewrite Epr in Hinp. destruct Hinp as [Hinp|Hinp]; [injection Hinp as -> _; exact Hfinw|].
+        assert (Hsp : sorted (prune rest)).
+        { apply prune_sorted. rewrite Hp in Hs0. exact (sorted_app_r _ _ Hs0). }
+        rewrite Epr in Hsp. pose proof (sorted_head_lt _ _ _ Hsp Hinp) as Hlt. cbn [fst] in Hlt. lia. }
       destruct (Hcov d0 es0 Hin0 Hne0 Hfin0) as (x & Hx' & _ & _ & Hxd).
       rewrite Hx'. unfold earlier. replace (d0 <? x) with false by lia.
       intros H; injection H as _ <-; reflexivity. }
